@@ -28,8 +28,8 @@ PresentKeys(d) == IF d.k = "obj" THEN {d.o[i][1] : i \in 1..Len(d.o)} ELSE {}
 StringElems(d) == IF d.k = "arr" THEN {d.a[i].s : i \in {j \in 1..Len(d.a) : d.a[j].k = "str"}} ELSE {}
 NameArgs(d) ==
   LET base == PresentKeys(d) \cup StringElems(d)
-  IN base \cup {FlipCase(s) : s \in base} \cup {Sub(s, 1, Len(s) - 1) : s \in {x \in base : Len(x) > 0}}
-     \cup {s \o <<98>> : s \in base} \cup {kEmpty, ka}
+  IN {n \in (base \cup {FlipCase(s) : s \in base} \cup {Sub(s, 1, Len(s) - 1) : s \in {x \in base : Len(x) > 0}}
+            \cup {s \o <<98>> : s \in base} \cup {kEmpty, ka}) : WellFormed(n)}
 Width1(d) == IF d.k = "arr" THEN Len(d.a) ELSE IF d.k = "obj" THEN Len(d.o) ELSE 1
 IndexArgs(d) == (0 - (Width1(d) + 2))..(Width1(d) + 2)
 
@@ -101,7 +101,7 @@ NoArg == [z |-> 0]
 
 \* one script line: record it in the state and write it out
 RpVectors(s) ==
-  IF "d" \notin DOMAIN s \/ RpSet = {0} \/ s.op \in {"to_vec", "roundtrip", "render", "serde"} THEN {<<>>}
+  IF "d" \notin DOMAIN s \/ RpSet = {0} \/ s.op \in {"to_vec", "roundtrip", "render", "build_array", "build_object", "comparable_all"} THEN {<<>>}
   ELSE {v \in [1..Len(s.d) -> RpSet] : \A i \in 1..Len(s.d) : v[i] # 0 => ~HasNonFinite(s.d[i])}
 WithRp(s, v) == IF v = <<>> THEN s ELSE [rp |-> v, fl |-> FL] @@ s
 Out(s) ==
@@ -118,10 +118,11 @@ EmitAcc(x) ==
   \/ \E i \in 0..(Width1(x) + 1) : Out(S1("get_by_index", x, [i |-> i]))
   \/ \E n \in NameArgs(x), c \in {0, 1} : Out(S1("get_by_name", x, [n |-> n, ic |-> c]))
   \/ \E p \in KPaths(x, Depth(x) + 1) : Out(S1("get_by_keypath", x, [kp |-> p]))
-  \/ \E o \in {"array_length", "object_keys", "object_each", "array_values", "type_of", "casts"} : Out(S1(o, x, NoArg))
+  \/ \E o \in {"array_length", "object_keys", "object_each", "array_values", "type_of", "casts", "to_string", "to_pretty_string", "lazy"} : Out(S1(o, x, NoArg))
   \/ \E ks \in KeyLists(x) \cup {<<n>> : n \in NameArgs(x)}, c \in {0, 1} : Out(S1("exists_keys", x, [keys |-> ks, all |-> c]))
   \/ \E n \in NameArgs(x) : Out(S1("traverse", x, [pred |-> [eq |-> n]]))
   \/ \E b \in {97, 98, 0} : Out(S1("traverse", x, [pred |-> [has |-> b]]))
+  \/ (~HasNonFinite(x) /\ Out([fl |-> FL] @@ S1("comparable_all", x, NoArg)))
 
 EmitEdit(x) ==
   \/ \E n \in NameArgs(x) : Out(S1("delete_by_name", x, [n |-> n, pre |-> Pre]))
@@ -140,7 +141,6 @@ EmitPairs(x, y) ==
 EmitRender(x) ==
   \/ Out(S1("render", x, NoArg))
   \/ Out(S1("serde", x, NoArg))
-  \/ Out(S1("value_display", x, NoArg))
 
 EmitNum(x) ==
   \/ Out([op |-> "num", a |-> [n |-> NumOf(x)]])
